@@ -222,7 +222,7 @@ class _triples_frames:
     params = {"stream": OBJ(f"{SS}:TripleStream"), "data": OBJ(SINK)}
     variants = _variants("TripleStream", TRIPLE, SINK)
     yields = MSG("RdfStreamFrame")
-    shards = 6
+    shards = 6          # one worker per variant
     modifies = STMT_MOD
     # loop 0: `for graph in graphs` (a one-element tuple, unrolled); loop 1: the statements
     loops = {1: LoopSpec(invariant=_stmt_loop, after_each=_after_stmt, modifies=STMT_MOD[:5], silent=_silent_loop)}
@@ -238,7 +238,7 @@ class _quads_frames:
     params = {"stream": OBJ(f"{SS}:QuadStream"), "data": OBJ(f"{SINK}@quads")}
     variants = _variants("QuadStream", QUAD, f"{SINK}@quads")
     yields = MSG("RdfStreamFrame")
-    shards = 6
+    shards = 6          # one worker per variant
     modifies = STMT_MOD
     loops = {0: LoopSpec(invariant=_stmt_loop, after_each=_after_stmt, modifies=STMT_MOD[:5], silent=_silent_loop)}
 
@@ -271,7 +271,7 @@ class _graph:
     params = {"self": OBJ(f"{SS}:GraphStream"), "graph_id": ADTS("gterm"), "graph": OBJ(SINK)}
     variants = _graph_variants()
     yields = MSG("RdfStreamFrame")
-    shards = 8
+    shards = 6          # one worker per variant
     modifies = GRAPH_MOD
     loops = {0: LoopSpec(invariant=lambda e: {"tables-well-formed": wf_te(e.self.encoder)},
                          after_each=lambda e: ({"pending-rows-below-frame-size": flow_len(e.self.flow) < e.self.flow.frame_size}
@@ -337,7 +337,7 @@ class _graphs_frames:
     params = {"stream": OBJ(f"{SS}:GraphStream"), "data": OBJ(f"{SINK}@quads")}
     variants = _gvariants()
     yields = MSG("RdfStreamFrame")
-    shards = 6
+    shards = 6          # one worker per variant
     modifies = STMT_MOD
     loops = {0: LoopSpec(invariant=_stmt_loop, after_each=_after_stmt, modifies=STMT_MOD[:5], silent=_silent_loop)}
 
